@@ -452,3 +452,53 @@ def oid_bounded(tier, seed):
         except Exception as e:
             bad("der.encode_oid#refuses-invalid-first-arcs", dict(arcs=list(arcs)), "raised %s" % type(e).__name__)
     return n_cases, found, [dict(numbers=len(nums), oids=len(oids))]
+
+
+# ---- read_number: one base-128 sub-identifier (the only part of the OID codec that is a loop over bytes, not over lists) ------
+import z3 as _z3                                     # noqa: E402
+from pyvc import sym as _sym                         # noqa: E402
+from pyvc.sym import SInt as _SInt, SBool as _SBool, T as _T   # noqa: E402
+
+B128 = _z3.Function("b128_value", _sym.Bytes, _sym.I, _sym.I)       # value of the first k octets read as base-128 digits (low 7 bits each)
+
+
+def b128(s, k):
+    if isinstance(s, (bytes, bytearray)) and isinstance(k, int):
+        v = 0
+        for i in range(max(k, 0)):
+            v = v * 128 + (s[i] & 0x7F)
+        return v
+    return _SInt(B128(_T(s) if not isinstance(s, (bytes, bytearray)) else _sym.T(bytes(s)), _T(k)))
+
+
+def b128_facts(ex, s, *ks):
+    """ground instances of the defining equations: B(s, 0) = 0, B(s, k+1) = 128 * B(s, k) + (s[k] mod 128)"""
+    if isinstance(s, (bytes, bytearray)):
+        return
+    ex.pc.append(B128(_T(s), 0) == 0)
+    for k in ks:
+        tk = _T(k)
+        ex.pc.append(_z3.Implies(tk >= 0, _z3.And(B128(_T(s), tk + 1) == 128 * B128(_T(s), tk) + _sym.AT(_T(s), tk) % 128, B128(_T(s), tk) >= 0)))
+
+
+def _all_continuation(string, upto):
+    if isinstance(string, (bytes, bytearray)):
+        return all(string[i] >= 128 for i in range(upto))
+    i = _z3.Int("rn!i")
+    return _SBool(_z3.ForAll([i], _z3.Implies(_z3.And(0 <= i, i < _T(upto)), _sym.AT(_T(string), i) >= 128), patterns=[_sym.AT(_T(string), i)], qid="continuation_bits"))
+
+
+@contract("ecdsa.der.read_number", props=["C11", "C10"], string=Bytes)
+def _(c):
+    # UnexpectedDER (and nothing else) exactly when there is no canonical sub-identifier at the start of the string
+    c.raises(DER, only_if=lambda string: Or_(eq(blen(string), 0), eq(at(string, 0), 0x80), _all_continuation(string, blen(string))))
+    c.returns(lambda ex: (ex.fresh_int("number"), ex.fresh_int("llen")))
+
+    def inv(ex, string, number, llen):
+        b128_facts(ex, string, llen, llen - 1)
+        return And_(llen >= 0, blen(string) >= 1, Not_(eq(at(string, 0), 0x80)), eq(number, b128(string, llen)), number >= 0, _all_continuation(string, llen),
+                    Or_(eq(llen, 0), llen <= blen(string)))
+    c.loop(0, invariant=[inv], decreases=lambda string, llen: blen(string) + 1 - llen)
+    c.ensures(lambda string, result: And_(result[1] >= 1, result[1] <= blen(string), result[0] >= 0), "range")
+    c.ensures(lambda string, result: And_(at(string, result[1] - 1) < 128, _all_continuation(string, result[1] - 1), Not_(eq(at(string, 0), 0x80))), "consumes-one-canonical-subidentifier")
+    c.ensures(lambda ex, string, result: (b128_facts(ex, string, result[1] - 1), eq(result[0], b128(string, result[1])))[1], "value-is-the-base-128-number")
